@@ -352,6 +352,9 @@ impl Database {
         drop(lookup);
         drop(file_manager_guard);
 
+        #[cfg(kahflane_turdb_verif)]
+        crate::verif::point("commit.captured", &[payload.len() as i64]);
+
         if self.shared.group_commit_queue.is_enabled() {
             match self.shared.group_commit_queue.submit_and_wait_leader(payload) {
                 Ok((_batch_id, is_leader)) => {
